@@ -412,10 +412,9 @@ func (c *nxCluster) settle(h *nxHost) {
 // partially sent batch is covered by crash-after-step plus message drops.
 func (c *nxCluster) onSend(h *nxHost, m pb.Message) {
 	c.checkSend(h, m)
-	data := pb.MustMarshal(&m)
-	var cp pb.Message
-	pb.MustUnmarshal(&cp, data)
-	h.outbox = append(h.outbox, cp)
+	// kept by value (entry slices still alias raft's in-memory log, as in the
+	// transport's send queue); serialised when delivered, see take
+	h.outbox = append(h.outbox, m)
 }
 
 func (c *nxCluster) flush(h *nxHost) {
@@ -442,7 +441,10 @@ func (c *nxCluster) take(i int, keep bool) pb.Message {
 	if !keep {
 		c.msgs = append(c.msgs[:i], c.msgs[i+1:]...)
 	}
-	return m
+	data := pb.MustMarshal(&m)
+	var out pb.Message
+	pb.MustUnmarshal(&out, data)
+	return out
 }
 
 func (c *nxCluster) deliver(m pb.Message, crashAt int) {
